@@ -8,4 +8,7 @@ import "github.com/foxboron/go-uefi/simyield"
 // the scratch copy of the repository with the scheduler.
 func setYieldHook(f func(string)) { simyield.Hook = f }
 
+// setBlockHook connects the cooperative lock acquisition loops.
+func setBlockHook(f func(string)) { simyield.BlockHook = f }
+
 const instrumentedBuild = true
